@@ -668,11 +668,19 @@ class XPathToken(Token[ta.XPathTokenType]):
         if not base_uri:
             base_uri = self.parser.base_uri
 
-        uri_parts: urllib.parse.ParseResult = urllib.parse.urlparse(uri)
+        try:
+            uri_parts: urllib.parse.ParseResult = urllib.parse.urlparse(uri)
+        except ValueError as err:
+            raise self.error('FORG0002', '{!r} is not a valid URI: {}'.format(uri, err)) from None
+
         if uri_parts.scheme or uri_parts.netloc or base_uri is None:
             return uri
 
-        base_uri_parts: urllib.parse.SplitResult = urllib.parse.urlsplit(base_uri)
+        try:
+            base_uri_parts: urllib.parse.SplitResult = urllib.parse.urlsplit(base_uri)
+        except ValueError as err:
+            raise self.error('FORG0002', '{!r} is not a valid URI: {}'.format(base_uri, err)) from None
+
         if base_uri_parts.fragment or not base_uri_parts.scheme and \
                 not base_uri_parts.netloc and not base_uri_parts.path.startswith('/'):
             raise self.error('FORG0002', '{!r} is not suitable as base URI'.format(base_uri))
